@@ -190,6 +190,33 @@ Proof.
       cbn [add_report stop items]; rewrite ?raF_nil; reflexivity.
 Qed.
 
+(* C08, socket half: iterating a reader over a socket always ends (the fuel |bytes the socket will deliver| + 1 is
+   never exhausted), for every schedule of recv() results whose failures come after the last data *)
+Theorem sock_terminates c fuel : forall s st,
+  Rst s st -> (length s < fuel)%nat -> out_of_fuel (raS c fuel st) = false.
+Proof.
+  induction fuel as [|f IH]; intros s st HR Hf; [lia|].
+  rewrite !read_all_unfold, !step_frame1.
+  pose proof (frame1_rel s st HR) as Hrel.
+  pose proof (f1_consumes parse nmea_hdr s) as Hc.
+  destruct (f1F s) as [r1 s1]. destruct (f1S st) as [r2 st2].
+  specialize (Hc _ _ eq_refl).
+  inversion Hrel as [r s0 st0 HR'|st0|st0]; subst.
+  - assert (Hk: r2 <> Raise EEOF -> out_of_fuel (raS c f st2) = false).
+    { intros Hne. apply (IH s1); [exact HR'|]. destruct Hc as [[-> _]|Hlt]; [congruence|lia]. }
+    destruct r2 as [[|p raw]|e].
+    + cbn [Reader.outcome_of on_outcome]. apply Hk. discriminate.
+    + destruct (outcome_of parse c (TFrame p raw)); cbn [on_outcome];
+        repeat (match goal with |- context [if ?b then _ else _] => destruct b end);
+        cbn [add_item add_report stop out_of_fuel]; try reflexivity; apply Hk; discriminate.
+    + destruct e; try reflexivity;
+      (cbn [classify is_protocol_exn on_outcome];
+        repeat (match goal with |- context [if ?b then _ else _] => destruct b end);
+        cbn [add_item add_report stop out_of_fuel]; try reflexivity; apply Hk; discriminate).
+  - reflexivity.
+  - reflexivity.
+Qed.
+
 End Refine.
 
 (* ---- every segmentation of a byte sequence into recv() results ---- *)
@@ -232,3 +259,7 @@ Theorem c10_refines_file_gen {P} (parse : N -> bytes -> result P) nmea_hdr c l :
   tail_fail l ->
   items (sock_run parse nmea_hdr c l) = items (file_read_all parse nmea_hdr c (chunks l)).
 Proof. intros Ht. apply sock_refines_file; [now apply sock_init_R|lia]. Qed.
+
+Theorem c08_sock_terminates {P} (parse : N -> bytes -> result P) nmea_hdr c l :
+  tail_fail l -> out_of_fuel (sock_run parse nmea_hdr c l) = false.
+Proof. intros Ht. apply (sock_terminates parse nmea_hdr c _ (chunks l)); [now apply sock_init_R|lia]. Qed.
